@@ -204,3 +204,75 @@ Proof. apply init_okb_ok. vm_compute. reflexivity. Qed.
 (* the same run is a fixed-membership run *)
 Example ex_overlap_single_step : overlap2b [1; 2; 3] [1; 2; 3; 4] = true /\ overlap2b [1; 2; 3] [1; 2; 4] = false.
 Proof. split; vm_compute; reflexivity. Qed.
+
+(* ---------- the example run is a fixed-membership run ---------- *)
+
+Definition config_eqb (a b : config) : bool :=
+  nat_list_eqb (voters a) (voters b) && nat_list_eqb (learners a) (learners b).
+
+Lemma config_eqb_eq a b : config_eqb a b = true -> a = b.
+Proof.
+  destruct a as [v1 l1], b as [v2 l2]. unfold config_eqb. simpl. rewrite andb_true_iff.
+  intros [H1 H2]. apply nat_list_eqb_eq in H1, H2. congruence.
+Qed.
+
+(* labels that leave every configuration alone at state s *)
+Definition keeps_conf (s : gstate) (l : label) : bool :=
+  match l with
+  | L_ChangeConf j cf => config_eqb cf (conf (nodes s j))
+  | L_Restart j _ _ _ _ _ _ cf => config_eqb cf (conf (nodes s j))
+  | _ => true
+  end.
+
+Lemma upd_conf_same s j n i : conf n = conf (nodes s j) -> conf (upd (nodes s) j n i) = conf (nodes s i).
+Proof. intros H. unfold upd. destruct (Nat.eqb_spec i j); subst; auto. Qed.
+
+Lemma apply_label_keeps_conf s l s' :
+  apply_label s l = Some s' -> keeps_conf s l = true -> conf_fixed s s'.
+Proof.
+  intros H K i. destruct l; simpl in H, K;
+    repeat match type of H with
+    | (if ?c then _ else _) = Some _ => destruct c; [|discriminate]
+    | match ?c with Some _ => _ | None => _ end = Some _ => destruct c; [|discriminate]
+    end; inversion H; subst; simpl; try reflexivity; try (apply upd_conf_same; reflexivity).
+  - apply upd_conf_same. simpl. now apply config_eqb_eq.
+  - apply upd_conf_same. simpl. now apply config_eqb_eq.
+Qed.
+
+Fixpoint run_fixed (s : gstate) (ls : list label) : option gstate :=
+  match ls with
+  | [] => Some s
+  | l :: r => if keeps_conf s l then match apply_label s l with Some s' => run_fixed s' r | None => None end else None
+  end.
+
+Lemma stepsf_cons a b c : step a b -> conf_fixed a b -> steps_fixed b c -> steps_fixed a c.
+Proof.
+  intros Hab Fab Hbc. induction Hbc as [|x y z Hxy IH Hyz HF].
+  - econstructor; [constructor | exact Hab | exact Fab].
+  - econstructor; [apply IH; auto | exact Hyz | exact HF].
+Qed.
+
+Theorem run_fixed_sound ls : forall s s', run_fixed s ls = Some s' -> steps_fixed s s'.
+Proof.
+  induction ls as [|l ls IH]; simpl; intros s s' H.
+  - inversion H; subst. constructor.
+  - destruct (keeps_conf s l) eqn:K; [|discriminate].
+    destruct (apply_label s l) as [s1|] eqn:E; [|discriminate].
+    eapply stepsf_cons; [eapply apply_label_sound; eauto | eapply apply_label_keeps_conf; eauto | eauto].
+Qed.
+
+Example ex_run_fixed : match run_fixed (init ex_cf []) ex_labels with Some s => ex_check s | None => false end = true.
+Proof. vm_compute. reflexivity. Qed.
+
+(* the hypotheses of the fixed-membership theorems are met by a state with two elected leaders
+   (terms 2 and 3), a committed prefix of term 2, a learner and a restarted node *)
+Example ex_reachable_fixed : exists s,
+  steps_fixed (init ex_cf []) s /\ rl (nodes s 2) = Leader /\ cur (nodes s 2) = 3 /\
+  commit (nodes s 2) = 2 /\ length (gcommit s) = 2 /\ length (leaders s) = 3.
+Proof.
+  pose proof ex_run_fixed as H. destruct (run_fixed (init ex_cf []) ex_labels) as [s|] eqn:E; [|discriminate].
+  exists s. unfold ex_check in H. rewrite !andb_true_iff in H.
+  destruct H as [[[[[[[[[A B] C] D] F] G] _] _] L] _].
+  apply role_eqb_eq in A. apply Nat.eqb_eq in B, D, F, L.
+  repeat split; auto. eapply run_fixed_sound; eauto.
+Qed.
